@@ -8,6 +8,7 @@
 mod rng;
 mod sx;
 mod c02;
+mod c05;
 mod c06;
 mod c07;
 mod c08;
@@ -36,6 +37,44 @@ pub struct Prop {
     pub run: fn(&Sx) -> (Sx, String),
 }
 
+/// properties whose cases may panic-abort, overflow the stack or hang: the batch runs in a child
+/// process that the parent restarts after the offending case
+fn isolated(id: &str) -> bool { matches!(id, "C05") }
+
+/// parent side of the isolated mode: (re)start a child on cases[start..]; a dead child marks the case
+/// it was working on as `!crash`, a child that makes no progress for `stall_s` seconds as `!hang`
+fn run_isolated(prop: &str, cases_file: &str, ncases: usize, outdir: &str, stall_s: u64) {
+    use std::process::{Command, Stdio};
+    let impl_path = format!("{}/impl.out", outdir); let meta_path = format!("{}/meta.out", outdir);
+    std::fs::write(&impl_path, "").unwrap(); std::fs::write(&meta_path, "").unwrap();
+    let count = |p: &str| std::fs::read_to_string(p).map(|t| t.lines().count()).unwrap_or(0);
+    let append = |p: &str, line: &str| { use std::io::Write; let mut f = std::fs::OpenOptions::new().append(true).open(p).unwrap(); writeln!(f, "{}", line).unwrap(); };
+    let exe = std::env::current_exe().unwrap();
+    loop {
+        let start = count(&impl_path);
+        if start >= ncases { break; }
+        let mut child = Command::new(&exe).args(["runrange", prop, cases_file, &start.to_string(), outdir]).stdout(Stdio::null()).stderr(Stdio::null()).spawn().unwrap();
+        let mut last = start; let mut last_t = std::time::Instant::now();
+        let status = loop {
+            if let Some(st) = child.try_wait().unwrap() { break Some(st); }
+            let n = count(&impl_path);
+            if n != last { last = n; last_t = std::time::Instant::now(); }
+            if last_t.elapsed().as_secs() > stall_s { let _ = child.kill(); let _ = child.wait(); break None; }
+            std::thread::sleep(std::time::Duration::from_millis(20));
+        };
+        let done = count(&impl_path);
+        // keep meta.out in step with impl.out
+        while count(&meta_path) > done { let t = std::fs::read_to_string(&meta_path).unwrap(); let keep: Vec<&str> = t.lines().take(done).collect(); std::fs::write(&meta_path, keep.join("\n") + "\n").unwrap(); }
+        while count(&meta_path) < done { append(&meta_path, "abnormal"); }
+        match status {
+            Some(st) if st.success() && done >= ncases => break,
+            Some(st) if st.success() => { /* child ended early without error: should not happen */ append(&impl_path, "!crash child ended early"); append(&meta_path, "abnormal"); }
+            Some(st) => { append(&impl_path, &format!("!crash child died: {:?}", st)); append(&meta_path, "abnormal"); }
+            None => { append(&impl_path, &format!("!hang no progress for {} s", stall_s)); append(&meta_path, "abnormal"); }
+        }
+    }
+}
+
 fn prop(id: &str) -> Prop {
     match id {
         "C08" => Prop { gen: c08::gen, run: c08::run },
@@ -52,6 +91,7 @@ fn prop(id: &str) -> Prop {
         "C03" => Prop { gen: c02::gen_c03, run: c02::run },
         "C19" => Prop { gen: c19::gen, run: c19::run },
         "C06" => Prop { gen: c06::gen, run: c06::run },
+        "C05" => Prop { gen: c05::gen, run: c05::run },
         "C13" => Prop { gen: c13::gen, run: c13::run },
         _ => { eprintln!("unknown property {}", id); std::process::exit(2) }
     }
@@ -134,7 +174,8 @@ fn main() {
             let mut cf = std::io::BufWriter::new(std::fs::File::create(format!("{}/cases.txt", outdir)).unwrap());
             for c in &cases { writeln!(cf, "{}", c.show()).unwrap(); }
             drop(cf);
-            run_all(&p, &cases, outdir);
+            if isolated(&a[2]) { run_isolated(&a[2], &format!("{}/cases.txt", outdir), cases.len(), outdir, 120); }
+            else { run_all(&p, &cases, outdir); }
         }
         "one" => {
             let c = Sx::parse(&a[3]);
@@ -146,7 +187,28 @@ fn main() {
             let txt = std::fs::read_to_string(&a[3]).unwrap();
             let cases: Vec<Sx> = txt.lines().filter(|l| !l.trim().is_empty()).map(|l| Sx::parse(l)).collect();
             std::fs::create_dir_all(&a[4]).unwrap();
-            run_all(&p, &cases, &a[4]);
+            if isolated(&a[2]) { run_isolated(&a[2], &a[3], cases.len(), &a[4], 120); } else { run_all(&p, &cases, &a[4]); }
+        }
+        "runrange" => {
+            // child of the isolated mode: append one line per case, flushed, starting at index a[4]
+            let p = prop(&a[2]);
+            let txt = std::fs::read_to_string(&a[3]).unwrap();
+            let start: usize = a[4].parse().unwrap();
+            let outdir = &a[5];
+            std::panic::set_hook(Box::new(|_| {}));
+            let mut out = std::fs::OpenOptions::new().append(true).open(format!("{}/impl.out", outdir)).unwrap();
+            let mut meta = std::fs::OpenOptions::new().append(true).open(format!("{}/meta.out", outdir)).unwrap();
+            for l in txt.lines().filter(|l| !l.trim().is_empty()).skip(start) {
+                let c = Sx::parse(l);
+                let f = p.run;
+                let r = std::panic::catch_unwind(std::panic::AssertUnwindSafe(|| f(&c)));
+                // meta first, then the observation: the parent counts observation lines
+                match r {
+                    Ok((o, label)) => { writeln!(meta, "{}", label).unwrap(); meta.flush().unwrap(); writeln!(out, "{}", o.show()).unwrap(); }
+                    Err(_) => { writeln!(meta, "panic").unwrap(); meta.flush().unwrap(); writeln!(out, "!panic (uncaught in harness)").unwrap(); }
+                }
+                out.flush().unwrap();
+            }
         }
         _ => { eprintln!("unknown command"); std::process::exit(2); }
     }
